@@ -326,6 +326,8 @@ type c11Env struct {
 	done    chan error
 	started bool
 	hdr     []string
+	opID    string
+	deploys int
 }
 
 func (e *c11Env) startOperator() string {
@@ -337,6 +339,7 @@ func (e *c11Env) startOperator() string {
 	runners, _ := strconv.Atoi(e.hdr[4])
 	kgc, _ := strconv.Atoi(e.hdr[5])
 	id := fmt.Sprintf("c11op%d", c11Seq.Add(1))
+	e.opID = id
 	e.h = &c11Handler{}
 	e.op = operator.NewOperator(operator.NewOperatorParams{
 		ID: id, UserHandler: e.h, Job: &workerstest.DummyJob{},
@@ -365,6 +368,46 @@ func (e *c11Env) startOperator() string {
 		time.Sleep(time.Millisecond)
 	}
 	return ""
+}
+
+// redeploy calls HandleDeploy again on the same Operator (as the job does after a failure or a rescale), with a
+// fresh storage location.
+func (e *c11Env) redeploy() string {
+	if s := e.startOperator(); s != "" {
+		return s
+	}
+	runners, _ := strconv.Atoi(e.hdr[4])
+	kgc, _ := strconv.Atoi(e.hdr[5])
+	ids := make([]string, runners)
+	for i := range ids {
+		ids[i] = fmt.Sprintf("sr%d", i)
+	}
+	e.deploys++
+	errc := make(chan error, 1)
+	go func() {
+		errc <- e.op.HandleDeploy(context.Background(), &workerpb.DeployOperatorRequest{
+			Operators:       []*jobpb.NodeIdentity{{Id: e.opID, Host: "h"}},
+			SourceRunnerIds: ids,
+			KeyGroupCount:   int32(kgc),
+			StorageLocation: fmt.Sprintf("memory:///c11-redeploy-%d", e.deploys),
+		}, &embedded.RecordingSink{})
+	}()
+	select {
+	case err := <-errc:
+		if err != nil {
+			return "deploy-error"
+		}
+	case <-time.After(10 * time.Second):
+		return "timeout"
+	}
+	deadline := time.Now().Add(10 * time.Second)
+	for !e.op.VerifReady() {
+		if time.Now().After(deadline) {
+			return "not-ready"
+		}
+		time.Sleep(time.Millisecond)
+	}
+	return "ok"
 }
 
 func (e *c11Env) send(sender string, ev *workerpb.Event) string {
@@ -472,6 +515,8 @@ func (e *c11Env) step(op string) string {
 	case "keyed":
 		return e.send("sr"+f[1], &workerpb.Event{Event: &workerpb.Event_KeyedEvent{KeyedEvent: &handlerpb.KeyedEvent{
 			Key: lib.UnHex(f[2]), Value: []byte(f[3]), Timestamp: timestamppb.New(time.Unix(0, 0))}}})
+	case "redeploy":
+		return e.redeploy()
 	case "wm":
 		return e.send("sr"+f[1], &workerpb.Event{Event: &workerpb.Event_Watermark{Watermark: &workerpb.Watermark{Timestamp: timestamppb.New(timeOfNs(f[2]))}}})
 	}
@@ -503,6 +548,7 @@ func propC11() *lib.Prop {
 			"(b) keyed events (whose handler response registers timers) and watermark messages from 1-4 runners in scripted interleavings sent to a real Operator (one key group, in-memory DKV, batch sizes 1-4); compared: " +
 			"(a') the same sequences sent through the real SourceRunner.sendOperatorEvent (placeholders resolved with event batches, watermark placeholders stamped when sent) to a recording operator; " +
 			"(c) the runner's real event loop (Start, HandleDeploy, processEvents, the send goroutine, key-event fetcher and operator batching with batch sizes 1-5 and no batch delay) fed by a scripted source and harness-controlled watermark ticks: the stream the operator receives, every value read at delivery, against the delivered-stream model; " +
+			"redeployments of the same Operator (HandleDeploy again, fresh storage) at arbitrary points; " +
 			"every ProcessEventBatchRequest (Watermark field, keyed and TimerExpired events in order) and the registry's composite after each message; non-trivial = at least 2 runners whose latest watermarks differ at some point and a timer fired, or an unordered timestamp sequence with at least one sample; " +
 			"fixed cases enumerate all interleavings of 2-3 runners x up to 2-3 messages",
 		NumCases: func(tier string) int {
@@ -536,6 +582,10 @@ func propC11() *lib.Prop {
 				Ops: []string{"lread 10 - - -", "ltick", "ldrain", "lread 100 - -", "lread -", "ltick", "ldrain"}})
 			cs = append(cs, lib.Case{Header: "M C11 0 3 1 1", Tags: []string{"loop"},
 				Ops: []string{"ltick", "lread 5+7 - 6", "ltick", "ltick", "ldrain", "lread 50 - -", "ltick", "ldrain", "ltick", "ltick", "ldrain"}})
+			// redeployment of the same operator: until a runner of the new deployment reports, the handler is told
+			// time.Time{} again, not the previous deployment's watermark
+			cs = append(cs, lib.Case{Header: "M C11 0 1 2 1", Tags: []string{"redeploy", "multi"},
+				Ops: []string{"keyed 0 6b 50000000000,200000000000", "wm 0 100000000000", "wm 1 100000000000", "keyed 0 61 -", "redeploy", "keyed 0 61 -", "keyed 1 6b 7", "wm 0 5", "keyed 0 61 -", "wm 1 9", "keyed 0 61 -"}})
 			// before any watermark message the handler is told time.Time{}; a runner that saw no event reports below the epoch
 			cs = append(cs, lib.Case{Header: "M C11 0 2 2 1", Tags: []string{"initial"},
 				Ops: []string{"tick", "keyed 0 6b 5", "keyed 1 6b 0", "wm 0 10", "keyed 0 61 -", "wm 1 -62135596800000000001", "keyed 0 61 -", "keyed 0 61 -", "wm 1 7", "keyed 0 61 -"}})
@@ -635,6 +685,16 @@ func propC11() *lib.Prop {
 			n := r.Range(8, 50)
 			keys := []string{"6b", "61", "6262", "00"}
 			for j := 0; j < n; j++ {
+				if r.Chance(1, 25) {
+					c.Ops = append(c.Ops, "redeploy")
+					if len(c.Tags) == 0 || c.Tags[len(c.Tags)-1] != "redeploy" {
+						c.Tags = append(c.Tags, "redeploy")
+					}
+					for k := range wms {
+						wms[k] = 0
+					}
+					continue
+				}
 				if r.Chance(1, 2) {
 					k := r.Intn(4)
 					ts := "-"
